@@ -175,6 +175,7 @@ class FnBlock:
         self.rel, self.path, self.opts, self.tline = rel, path, opts, tline
         self.spec, self.first = [], []
         self.loops, self.closures, self.anchors = {}, {}, []
+        self.loop_opts = {}
         self.cur = None
 
     def add_line(self, line, tline):
@@ -235,11 +236,11 @@ def weave_fn(sc, fb, reach=False):
     it = extract_item(sc, fb.rel, 'fn', name, impl_type=impl_type)
     raw = it['text']
     rules = fb.opts.get('rules')
-    rules = rules.split(',') if rules else ['R0', 'R1', 'R7', 'R2', 'R3']
+    rules = rules.split(',') if rules else ['R0', 'R1', 'R7', 'R8', 'R2', 'R3', 'R9']
     counts = {}
     try:
         # phase A: line-preserving token rewrites
-        text, c = desugar(raw, [r for r in rules if r in ('R0', 'R1', 'R7')])
+        text, c = desugar(raw, [r for r in rules if r in ('R0', 'R1', 'R7', 'R8')])
         counts.update(c)
         if text.count('\n') != raw.count('\n'):
             raise WeaveError(f'internal: desugaring changed the line count of {fb.path}')
@@ -280,7 +281,7 @@ def weave_fn(sc, fb, reach=False):
             text, origin = apply_inserts(text, origin, inserts)
             # phase C: loop desugarings (line preserving)
             before = text.count('\n')
-            text, c = desugar(text, [r for r in rules if r in ('R2', 'R3')])
+            text, c = desugar(text, [r for r in rules if r in ('R2', 'R3', 'R9')])
             counts.update(c)
             if text.count('\n') != before:
                 raise WeaveError(f'internal: desugaring changed the line count of {fb.path}')
@@ -323,6 +324,15 @@ def weave_fn(sc, fb, reach=False):
                 raise WeaveError(f'lost anchor: {fb.path}: loop #{n} not found (function has {len(lps)} loops)')
             k, j, ltoks = lps[n - 1]
             inserts.append((ltoks[j].start, '\n' + ''.join(l + '\n' for l, _ in clause_lines)))
+            it_name = fb.loop_opts.get(n, {}).get('iter')
+            if it_name:
+                # name the ghost iterator of a `for` loop: `for x in it: EXPR`
+                q = k + 1
+                while q < j and not (ltoks[q].kind == 'ident' and ltoks[q].text == 'in'):
+                    q += 1
+                if ltoks[k].text != 'for' or q >= j:
+                    raise WeaveError(f'{fb.path}: loop #{n}: iter= needs a for loop')
+                inserts.append((ltoks[q].end, f' {it_name}:'))
         cls = _closures(text)
         for n, (copts, clause_lines) in fb.closures.items():
             if n < 1 or n > len(cls):
@@ -444,8 +454,10 @@ def process_template(tmpl_path, repo, reach=False):
                 raise WeaveError(f'template line {tl}: //@{d} outside //@fn')
             fb.cur = fb.spec if d == 'spec' else fb.first
         elif d == 'loop':
-            n = int(args[0])
+            pos, kv = _kv(args)
+            n = int(pos[0])
             fb.loops[n] = []
+            fb.loop_opts[n] = kv
             fb.cur = fb.loops[n]
         elif d == 'closure':
             pos, kv = _kv(args)
